@@ -7,6 +7,23 @@
 (***************************************************************************)
 EXTENDS Dhcp4Ind, Apalache
 
+\* S = the small bounds the quick tier uses for the (expensive) implications
+\* IndInv => Safety: two clients, two pool addresses, a table of <= 3 leases.
+CInitS ==
+    /\ Macs = Gen(2)
+    /\ Pool = Gen(2)
+    /\ Outs = Gen(1)
+    /\ GW \in Int
+    /\ Far \in Int
+    /\ ReqHosts = Gen(2)
+    /\ StaticHosts = Gen(1)
+    /\ MaxStatic \in Nat
+    /\ LeaseT \in Nat
+    /\ GenNameOf = Gen(5)
+    /\ ConstOK
+
+IndInitS == ls = Gen(3) /\ disk = ls /\ IndInv
+
 CInitQ ==
     /\ Macs = Gen(3)
     /\ Pool = Gen(3)
